@@ -42,7 +42,7 @@ class HarnessError(Exception):
 class Outcome:
     """Result of executing one scenario."""
 
-    __slots__ = ("viol", "digest", "nontrivial", "probes", "faults", "sim_time", "steps", "info")
+    __slots__ = ("viol", "digest", "nontrivial", "probes", "faults", "sim_time", "steps", "info", "witness", "evals", "digests")
 
     def __init__(self):
         self.viol = []  # list of (rule, message)
@@ -53,6 +53,9 @@ class Outcome:
         self.sim_time = 0.0
         self.steps = 0
         self.info = None
+        self.witness = None  # scenario that reproduces the violation directly (enumerating checks)
+        self.evals = 1  # executions performed inside this scenario (enumerating checks)
+        self.digests = None  # optional list of (digest, nontrivial) for the sub-runs
 
     def bad(self, rule, msg=""):
         self.viol.append((rule, str(msg)[:600]))
@@ -102,7 +105,7 @@ def _chunk(args):
     prop = load_prop(pid)
     agg = {
         "n": 0, "digests": set(), "nontrivial": 0, "probes": collections.Counter(), "faults": collections.Counter(),
-        "sim_time": 0.0, "steps": 0, "samples": [], "viol": [], "errors": [], "nt_digests": set(),
+        "sim_time": 0.0, "steps": 0, "samples": [], "viol": [], "errors": [], "nt_digests": set(), "scenarios": 0,
     }
     for i in range(start, start + count):
         if time.time() > deadline:
@@ -120,12 +123,14 @@ def _chunk(args):
         except Exception:
             agg["errors"].append("index %d seed %d: %s" % (i, seed, traceback.format_exc()[-1500:]))
             continue
-        agg["n"] += 1
-        d = h64(out.digest)
-        agg["digests"].add(d)
-        if out.nontrivial:
-            agg["nontrivial"] += 1
-            agg["nt_digests"].add(d)
+        agg["n"] += out.evals
+        agg["scenarios"] += 1
+        for dg, nt in (out.digests if out.digests is not None else [(out.digest, out.nontrivial)]):
+            d = h64(dg)
+            agg["digests"].add(d)
+            if nt:
+                agg["nontrivial"] += 1
+                agg["nt_digests"].add(d)
         agg["probes"].update(out.probes)
         agg["faults"].update(out.faults)
         agg["sim_time"] += out.sim_time
@@ -133,7 +138,10 @@ def _chunk(args):
         if len(agg["samples"]) < 2 and out.nontrivial:
             agg["samples"].append({"scenario": sc, "observed": out.info})
         if out.viol and len(agg["viol"]) < 6:
-            agg["viol"].append({"scenario": sc, "viol": out.viol})
+            wsc = out.witness or sc
+            wsc.setdefault("seed", seed)
+            wsc.setdefault("index", i)
+            agg["viol"].append({"scenario": wsc, "viol": out.viol})
     return agg
 
 
@@ -203,7 +211,7 @@ def _candidates(sc, prop):
     custom = getattr(prop, "shrink_candidates", None)
     if custom:
         yield from custom(sc)
-    frozen = set(getattr(prop, "shrink_frozen", ())) | {"sub_t", "horizon", "seed", "index", "id"}
+    frozen = set(getattr(prop, "shrink_frozen", ())) | {"sub_t", "horizon", "seed", "index", "id", "pool"}
     items = [(p, n) for p, n in _paths(sc) if not (p and p[0] in ("seed", "index", "property"))]
     # replace an operator node by one of its inputs
     for p, n in items:
@@ -315,7 +323,7 @@ def check(pid, tier="quick", runs=None, procs=None, vseed=None, budget=None):
     tasks = [(pid, tier, vseed, s, min(csize, runs - s), deadline) for s in range(0, runs, csize)]
     total = {
         "n": 0, "digests": set(), "nt_digests": set(), "nontrivial": 0, "probes": collections.Counter(), "faults": collections.Counter(),
-        "sim_time": 0.0, "steps": 0, "samples": [], "viol": [], "errors": [],
+        "sim_time": 0.0, "steps": 0, "samples": [], "viol": [], "errors": [], "scenarios": 0,
     }
     ctx = multiprocessing.get_context("fork")
     harness_error = None
@@ -325,6 +333,7 @@ def check(pid, tier="quick", runs=None, procs=None, vseed=None, budget=None):
             for f in cf.as_completed(futs, timeout=budget + 240):
                 a = f.result()
                 total["n"] += a["n"]
+                total["scenarios"] += a["scenarios"]
                 total["digests"] |= a["digests"]
                 total["nt_digests"] |= a["nt_digests"]
                 total["nontrivial"] += a["nontrivial"]
@@ -408,6 +417,7 @@ def check(pid, tier="quick", runs=None, procs=None, vseed=None, budget=None):
         "nontrivial_evaluations": total["nontrivial"],
         "rule": prop.rule,
         "samples": total["samples"] or [{"note": "no non-trivial sample recorded"}],
+        "scenarios": total["scenarios"],
         "runs_requested": runs,
         "runs_per_hour": int(total["n"] / wall * 3600) if wall > 0 else 0,
         "simulated_time_covered": total["sim_time"],
